@@ -292,14 +292,14 @@ theorem strict_imp_lax :
     (motive_3 := fun vs t => checkVals true vs t = true → checkVals false vs t = true)
     (motive_4 := fun is s => ∀ r, typeSeq true is s = some r → typeSeq false is s = some r)
   all_goals (intros; try (simp_all [typeInstr, checkVal, checkVals, typeSeq]; done))
-  case case19 a' b' body a b ih h =>
+  case case21 a' b' body a b ih h =>
     cases hb : typeInstr true body [a] with
     | none => simp [checkVal, hb] at h
     | some rb => have := ih rb hb; simp only [checkVal, hb, this] at h ⊢; exact h
-  case case32 n body s hn r h => simp [typeInstr, hn] at h
-  case case49 body t s' x ih r h => have := ih _ x; simp only [typeInstr, x, this] at h ⊢; exact h
-  case case53 body t s' x ih r h => have := ih _ x; simp only [typeInstr, x, this] at h ⊢; exact h
-  case case57 body k v s' x ih r h => have := ih _ x; simp only [typeInstr, x, this] at h ⊢; exact h
+  case case34 n body s hn r h => simp [typeInstr, hn] at h
+  case case51 body t s' x ih r h => have := ih _ x; simp only [typeInstr, x, this] at h ⊢; exact h
+  case case55 body t s' x ih r h => have := ih _ x; simp only [typeInstr, x, this] at h ⊢; exact h
+  case case59 body k v s' x ih r h => have := ih _ x; simp only [typeInstr, x, this] at h ⊢; exact h
 
 /-- in either mode, a judgement of the development is in particular a judgement of the Michelson typing rules -/
 theorem typeInstr_lax [Mode] {i : Instr} {s : List Ty} {r : TRes} (h : typeInstr Mode.strict i s = some r) :
